@@ -179,11 +179,140 @@ def run(case):
                     for t in grid:
                         if not close(third[n][t], vals[t]):
                             return "settings given to %s at begin_session changed scenario %s: s(%r) = %r, expected %r" % (who, n, t, third[n][t], vals[t])
+        # a session over ALL scenarios (also those with run specs of their own), stepped a little and ended: afterwards every
+        # scenario still gives the batch results of its own settings (C06: stepping one scenario never changes another)
+        touched = [w for (w, _r) in case.get("steps", {}).values()]
+        if len(names) >= 2 and not [n for n in touched if "rate" not in case["scen"][n]]:
+            b.begin_session(scenarios=names, scenario_managers=["sm"], equations=["s"], starttime=start, dt=dt)
+            for _ in range(2):
+                b.run_step()
+            b.end_session()
+            for name in names:
+                if len(sess) >= 2 and name == sess[0]:
+                    continue      # re-parameterised on purpose by the settings of the third session above (rate 9.0)
+                rate, pts, st, sp, d = settings_of(name)
+                grid, vals, _ = reference(st, sp, d, lambda k: (rate, pts))
+                df = b.run_scenarios(scenario_managers=["sm"], scenarios=[name], equations=["s"])
+                idx = [float(x) for x in df.index]
+                if idx != grid:
+                    return "after a session over all scenarios (dt %r), the batch run of %s covers %r, its own run specs give %r" % (dt, name, idx[:8], grid[:8])
+                col = df[df.columns[0]]
+                for t in grid:
+                    if not close(col[t], vals[t]):
+                        return "after a session over all scenarios, batch %s s(%r) = %r, expected %r" % (name, t, col[t], vals[t])
     finally:
         b.destroy()
     return None
 
-case = {'start': 0.0, 'stop': 2.0, 'dt': 0.5, 'base_rate': 1.0, 'scen': {'B': {'pts': [[0.0, 2.0], [10.0, 4.0]]}, 'A': {'rate': 1.0, 'pts': [[0.0, 0.0], [10.0, 1.0]]}}, 'base_constants': 4.0, 'steps': {4: ('B', 2.0)}}
+def run_two_managers(case):
+    """two scenario managers (different models) that both hold a scenario called "base", one session over both; a step
+    setting addressed to ONE manager's scenario affects that one from its step onwards and never the other"""
+    start, stop, dt, ra, rb, k_set, newrate = case
+    P0 = [[0.0, 0.0], [100.0, 0.0]]
+    b = bptk()
+    try:
+        ma, mb = build(start, stop, dt, ra, P0), build(start, stop, dt, rb, P0)
+        ma.name, mb.name = "ma", "mb"
+        b.register_scenario_manager({"smA": {"model": ma}}); b.register_scenarios(scenario_manager="smA", scenarios={"base": {}})
+        b.register_scenario_manager({"smB": {"model": mb}}); b.register_scenarios(scenario_manager="smB", scenarios={"base": {}})
+        # (the flow is requested too: a value that is never requested is evaluated lazily, i.e. under the settings in force
+        #  when some later step first needs it -- the reference below assumes every step evaluates its own flow)
+        b.begin_session(scenarios=["base"], scenario_managers=["smA", "smB"], equations=["s", "f"], starttime=start, dt=dt)
+        grid0 = reference(start, stop, dt, lambda k: (0, P0))[0]
+        got = {"smA": {}, "smB": {}}
+        for k, t in enumerate(grid0):
+            stg = {"smA": {"base": {"constants": {"rate": newrate}}}} if k == k_set else None
+            res = b.run_step(settings=stg)
+            for sm in ("smA", "smB"):
+                got[sm][t] = list(res[sm]["base"]["s"].values())[0]
+        b.end_session()
+        ga, va, _ = reference(start, stop, dt, lambda k: ((newrate if k >= k_set else ra), P0))
+        gb, vb, _ = reference(start, stop, dt, lambda k: (rb, P0))
+        for t in grid0:
+            if not close(got["smB"][t], vb[t]):
+                return "two managers with a scenario of the same name: a step setting addressed to smA/base changed smB/base: s(%r) = %r, expected %r" % (t, got["smB"][t], vb[t])
+            if not close(got["smA"][t], va[t]):
+                return "two managers: smA/base s(%r) = %r, expected %r with rate %r from step %d" % (t, got["smA"][t], va[t], newrate, k_set)
+        return None
+    finally:
+        b.destroy()
+
+def run_rest(case):
+    """REST channels: /run with run-spec-only settings after an earlier run; run-steps / run-step partitions that reach the stop time"""
+    start, stop, dt, rate, dt2, parts = case
+    P0 = [[0.0, 0.0], [100.0, 0.0]]
+    def build_fb():
+        # a model whose trajectory depends on dt (the flow depends on the stock)
+        m = Model(starttime=start, stoptime=stop, dt=dt, name="m")
+        s_ = m.stock("s"); f_ = m.flow("f"); r_ = m.constant("rate")
+        r_.equation = rate; f_.equation = r_ + s_ * 0.5; s_.initial_value = 1.0; s_.equation = f_
+        return m
+    def reference(start, stop, dt, schedule):
+        grid = []; k = 0
+        while True:
+            t = float(Fraction(str(start)) + k * Fraction(str(dt)))
+            if t > stop + 1e-12: break
+            grid.append(t); k += 1
+        vals = {}; v = 1.0
+        for k, t in enumerate(grid):
+            if k > 0:
+                v = v + dt * max(0, schedule(k - 1)[0] + v * 0.5)
+            vals[t] = v
+        return grid, vals, None
+    def factory():
+        m = build_fb()
+        bb = bptk(); bb.register_model(m); bb.register_scenario_manager({"sm": {"model": m}}); bb.register_scenarios(scenario_manager="sm", scenarios={"base": {}})
+        return bb
+    app = BptkServer(__name__, factory); c = app.test_client()
+    body = {"scenario_managers": ["sm"], "scenarios": ["base"], "equations": ["s"]}
+    r = c.post("/run", json=body)
+    grid, vals, _ = reference(start, stop, dt, lambda k: (rate, P0))
+    ser = json.loads(r.data)["sm"]["base"]["equations"]["s"]
+    if sorted(float(k) for k in ser) != grid or any(not close(ser[k], vals[float(k)]) for k in ser):
+        return "POST /run differs from the reference: %r" % (dict(list(ser.items())[:4]),)
+    # the same scenario again with settings that carry run specs only
+    r = c.post("/run", json=dict(body, settings={"sm": {"base": {"runspecs": {"dt": dt2}}}}))
+    grid2, vals2, _ = reference(start, stop, dt2, lambda k: (rate, P0))
+    ser = json.loads(r.data)["sm"]["base"]["equations"]["s"]
+    if sorted(float(k) for k in ser) != grid2:
+        return "POST /run with runspecs dt=%r covers %r, expected the grid %r" % (dt2, sorted(float(k) for k in ser)[:8], grid2[:8])
+    for k in ser:
+        if not close(ser[k], vals2[float(k)]):
+            return "POST /run with settings that only change dt to %r (after an earlier run with dt %r): s(%s) = %r, a model simulated with that dt gives %r" % (dt2, dt, k, ser[k], vals2[float(k)])
+    # stepping through the REST API in partitions, to the very end of the grid
+    u = json.loads(c.post("/start-instance").data)["instance_uuid"]
+    c.post("/%s/begin-session" % u, json=dict(body))
+    gridS, valsS, _ = reference(start, stop, dt, lambda k: (rate, P0))   # the instance has its own bptk: scenario dt unchanged
+    seen = {}
+    i = 0
+    while len(seen) < len(gridS) and i < 4 * len(gridS):
+        n_ = parts[i % len(parts)]; i += 1
+        if n_ == 1:
+            r = c.post("/%s/run-step" % u)
+            items = [json.loads(r.data)] if r.status_code == 200 else []
+        else:
+            r = c.post("/%s/run-steps" % u, json={"numberSteps": n_, "settings": {}})
+            items = json.loads(r.data) if r.status_code == 200 else []
+            items = items if isinstance(items, list) else [items]
+        if not items:
+            break
+        for it in items:
+            try:
+                for tk, v in it["sm"]["base"]["s"].items():
+                    seen[float(tk)] = v
+            except (KeyError, TypeError, AttributeError):
+                pass
+    if sorted(seen) != gridS:
+        return "REST stepping with request sizes %r covers the times %r, the grid from start to stop is %r" % (parts, sorted(seen), gridS)
+    for t in gridS:
+        if not close(seen[t], valsS[t]):
+            return "REST stepping: s(%r) = %r, batch value %r" % (t, seen[t], valsS[t])
+    sr = json.loads(c.get("/%s/session-results" % u).data)["sm"]["base"]["equations"]["s"]
+    if sorted(float(k) for k in sr) != gridS:
+        return "session-results after stepping to the stop time cover %r, expected %r" % (sorted(float(k) for k in sr), gridS)
+    return None
+
+case = {'start': 0.0, 'stop': 3.0, 'dt': 0.5, 'base_rate': 2.0, 'scen': {'B': {}, 'A': {'rate': 1.0, 'pts': [[0.0, 2.0], [10.0, 4.0]]}}, 'base_constants': None, 'steps': {2: ('B', 2.0)}}
 bad = run(case)
 print("case:", case)
 print("FAIL: " + bad if bad else "PASS")
